@@ -349,13 +349,15 @@ Inductive top :=
 | OAfter (dur cb : Z)              (* Core::after *)
 | OAddMax (ns cb : Z)
 | OAddMin (ns cb : Z)
-| ODel (slot g : Z)                (* Core::timer_del *)
-| OModMax (slot g ns : Z)
-| ODelMax (slot g : Z)
-| OActMax (slot g : Z)
-| OModMin (slot g ns : Z)
-| ODelMin (slot g : Z)
-| OActMin (slot g : Z)
+(* key operations carry [kref], the index of the op that issued the key (-1: a Default key); the
+   implementation model ignores it, the specification identifies the keyed timer by it *)
+| ODel (kref slot g : Z)           (* Core::timer_del *)
+| OModMax (kref slot g ns : Z)
+| ODelMax (kref slot g : Z)
+| OActMax (kref slot g : Z)
+| OModMin (kref slot g ns : Z)
+| ODelMin (kref slot g : Z)
+| OActMin (kref slot g : Z)
 | ORun (ns : Z)                    (* Stakker::run(t0 + ns, false) *)
 | ONextExpiry
 | ONextWait (ns : Z)
@@ -383,13 +385,13 @@ Definition tstep (s : tstate) (o : top) : option (tstate * tout) :=
   | OAfter dur cb => key_out (add_fixed s (cnow s + dur) cb)
   | OAddMax ns cb => key_out (add_max s ns cb)
   | OAddMin ns cb => key_out (add_min s ns cb)
-  | ODel slot g => bool_out (del_fixed s slot g)
-  | OModMax slot g ns => bool_out (mod_max s slot g ns)
-  | ODelMax slot g => bool_out (del_max s slot g)
-  | OActMax slot g => Some (s, RBool (is_active s slot g))
-  | OModMin slot g ns => bool_out (mod_min s slot g ns)
-  | ODelMin slot g => bool_out (del_min s slot g)
-  | OActMin slot g => Some (s, RBool (is_active s slot g))
+  | ODel _ slot g => bool_out (del_fixed s slot g)
+  | OModMax _ slot g ns => bool_out (mod_max s slot g ns)
+  | ODelMax _ slot g => bool_out (del_max s slot g)
+  | OActMax _ slot g => Some (s, RBool (is_active s slot g))
+  | OModMin _ slot g ns => bool_out (mod_min s slot g ns)
+  | ODelMin _ slot g => bool_out (del_min s slot g)
+  | OActMin _ slot g => Some (s, RBool (is_active s slot g))
   | ORun ns =>
       if ns >? cnow s then
         '(s1, fired) <- advance (set_cnow s ns) ns ;; Some (s1, RFired fired)
